@@ -75,6 +75,23 @@ def make_parser(config, hook):
     raise AssertionError(config)
 
 
+def _loads_bytes(text, hook):
+    import pvl, warnings, pvl.grammar as G, pvl.decoder as D
+    h = _H[hook]
+    g = G.OmniGrammar()
+    dkw = {"quantity_cls": h["quantity_cls"]} if h["quantity_cls"] is not None else {}
+    pkw = dict(module_class=h["classes"][0], group_class=h["classes"][1], object_class=h["classes"][2]) if h["classes"] else {}
+    try:
+        with loaders.watchdog(10), warnings.catch_warnings():
+            warnings.simplefilter("ignore")
+            m = pvl.loads(text.encode("utf-8"), grammar=g, decoder=D.OmniDecoder(grammar=g, real_cls=h["real_cls"], **dkw), **pkw)
+        return {"kind": "module", "tree": project(m), "errors": list(getattr(m, "errors", []))}
+    except loaders.Hang:
+        return {"kind": "hang"}
+    except Exception as e:
+        return {"kind": "raise", "type": type(e).__name__, "documented": type(e).__name__ in ("LexerError", "ParseError"), "msg": str(e)[:200]}
+
+
 def canon_expected(n):
     t, s = n["t"], loaders.cps(n["s"])
     if t == "int":
@@ -91,7 +108,12 @@ def canon_expected(n):
 
 def _one(job):
     config, hook, text, expected = job
-    obs = loaders.load(config, text, parser=make_parser(config, hook))
+    if config == "OMNI/bytes":      # through pvl.loads(bytes, ...): the keyword arguments must reach the parser that is built
+        obs = _loads_bytes(text, hook)
+        config_ref = "OMNI"
+    else:
+        obs = loaders.load(config, text, parser=make_parser(config, hook))
+        config_ref = config
     if hook == "picky" and any("qty" in f for f in loaders.features(expected)):
         if obs["kind"] == "raise":
             return None
@@ -99,7 +121,7 @@ def _one(job):
                  "observed": "hang" if obs["kind"] == "hang" else "module-returned-without-the-quantity"},
                 {"config": config, "hooks": hook, "text": text}, {"observed": obs})
     ref = {"verdict": "accept", "tree": expected, "errs": [], "locus": "accept"}
-    j = loaders.judge(ref, obs, loaders.GRAMMAR_CFG[config] == "tolerant")
+    j = loaders.judge(ref, obs, loaders.GRAMMAR_CFG[config_ref] == "tolerant")
     if j is None:
         return None
     return ({"config": config + "/" + hook, "locus": "accept", "features": loaders.features(expected), "observed": j[1]},
@@ -126,6 +148,8 @@ def run(ctx, rep):
             for hook, tree in c["rt"].items():
                 jobs.append((config, hook, text, canon_expected(tree)))
             jobs.append((config, "picky", text, canon_expected(c["rt"]["fraction"])))
+            if config == "OMNI":
+                jobs.append(("OMNI/bytes", "recording", text, canon_expected(c["rt"]["recording"])))
         res = pool_map(_one, jobs, chunksize=200)
         for j, out in zip(jobs, res):
             f = loaders.features(j[3])
